@@ -346,7 +346,7 @@ func c02RetypeAll(tok signedTok, n *icbor.Node, protected bool) string {
 
 func TestC02_Splices(t *testing.T) {
 	st := NewStats("C02", "TestC02_Splices", "rapid: two signed tokens (same or different key / algorithm / claims); splice protected, payload or signature content between them; replace the signature by zeros, random bytes, the other token's signature, right-length wrong bytes, or other spellings of the same (r,s) (ASN.1 DER, DER plus junk, zero-padded / zero-stripped halves, doubled); 1..8 random byte edits; protected header / payload re-encoded into different but equivalent bytes (non-preferred widths, long or indefinite map head, permuted keys) under the original signature; bytes appended to / cut from the payload or protected-header content with the length prefix adjusted; correctly signed envelopes that carry the algorithm only in the unprotected header or nowhere, a nil payload, an empty signature; verification with every other key (same type, other types, nil, non-keys). Oracle: independent splitter decides whether covered bytes changed; wrong key never verifies; alg-less/payload-less/signature-less never verify. Non-trivial = the altered token decodes; distinct = (alg, mutation kind, details)")
-	st.Require = []string{"splice-payload", "splice-protected", "splice-signature", "sig-zero", "sig-random", "byte-edits", "alg-unprotected-only", "alg-nowhere", "nil-payload", "nil-payload-original-sig", "empty-signature", "wrong-key", "decoded-verify-failed", "equiv-protected", "equiv-payload", "extend-payload", "extend-protected", "sig-reencode", "prefix-payload", "other-container", "keyless-signature"}
+	st.Require = []string{"splice-payload", "splice-protected", "splice-signature", "sig-zero", "sig-random", "byte-edits", "alg-unprotected-only", "alg-nowhere", "nil-payload", "nil-payload-original-sig", "empty-signature", "wrong-key", "decoded-verify-failed", "equiv-protected", "equiv-payload", "extend-payload", "extend-protected", "sig-reencode", "prefix-payload", "other-container", "keyless-signature", "nested-token", "countersigned"}
 	defer st.Flush(t)
 	// deterministic prelude: every value of the payload of fixed tokens (both
 	// profiles, with components and in the profile-1 no-measurements form)
@@ -383,7 +383,7 @@ func TestC02_Splices(t *testing.T) {
 			t.Fatalf("cannot sign: %v", err)
 		}
 		otherTrafficEvery(4)
-		kind := rapid.SampledFrom([]string{"splice-payload", "splice-protected", "splice-signature", "sig-zero", "sig-random", "sig-flip", "byte-edits", "alg-unprotected-only", "alg-nowhere", "nil-payload", "nil-payload-original-sig", "nil-payload-original-sig", "empty-signature", "wrong-key", "reencode", "equiv-protected", "equiv-protected", "equiv-payload", "extend-payload", "extend-payload", "extend-protected", "shrink-payload", "sig-reencode", "sig-reencode", "prefix-payload", "prefix-payload", "other-container", "other-container", "keyless-signature", "keyless-signature", "element-rewrap", "element-rewrap", "signature-less-evidence", "protected-params", "protected-params"}).Draw(t, "kind")
+		kind := rapid.SampledFrom([]string{"splice-payload", "splice-protected", "splice-signature", "sig-zero", "sig-random", "sig-flip", "byte-edits", "alg-unprotected-only", "alg-nowhere", "nil-payload", "nil-payload-original-sig", "nil-payload-original-sig", "empty-signature", "wrong-key", "reencode", "equiv-protected", "equiv-protected", "equiv-payload", "extend-payload", "extend-payload", "extend-protected", "shrink-payload", "sig-reencode", "sig-reencode", "prefix-payload", "prefix-payload", "other-container", "other-container", "keyless-signature", "keyless-signature", "element-rewrap", "element-rewrap", "signature-less-evidence", "protected-params", "protected-params", "nested-token", "countersigned"}).Draw(t, "kind")
 		var mut []byte
 		detail := ""
 		rebuild := func(prot, pay, sig []byte) []byte {
@@ -598,6 +598,73 @@ func TestC02_Splices(t *testing.T) {
 			}
 			mut = rebuild(a.Parts.Protected, a.Parts.Payload, alt)
 			detail = how
+		case "nested-token":
+			// the genuine token as the PAYLOAD of another envelope (what a
+			// gateway forwarding it might build) whose own signature is not one
+			// the signer made: zeros, random bytes, the inner signature again
+			var sig []byte
+			switch detail = rapid.SampledFrom([]string{"zeros", "random", "inner-signature", "one-byte"}).Draw(t, "outer.sig"); detail {
+			case "zeros":
+				sig = make([]byte, len(a.Parts.Signature))
+			case "random":
+				sig = drawBytes(t, len(a.Parts.Signature), "outer.sigbytes")
+			case "inner-signature":
+				sig = a.Parts.Signature
+			default:
+				sig = []byte{1}
+			}
+			inner := a.Tok
+			if genBool.Draw(t, "nested.twice") {
+				inner = rebuild(a.Parts.Protected, a.Tok, a.Parts.Signature)
+				detail += "/twice"
+			}
+			mut = rebuild(a.Parts.Protected, inner, sig)
+		case "countersigned":
+			// the genuine token with a COUNTERSIGNATURE of another party in
+			// its unprotected header (RFC 9338, labels 11 / 7; outside the
+			// signed parts): it verifies with the signer's key as before, and
+			// with nobody else's - the countersigner's included
+			kpB := keyFor(rapid.SampledFrom([]int64{algA, algA, icose.EdDSA, icose.ES256}).Draw(t, "cs.alg"), kpA.Idx+1)
+			signProt := icose.ProtectedAlg(kpB.Alg)
+			v2 := genBool.Draw(t, "cs.v2")
+			items := []*icbor.Node{icbor.Tstr("CounterSignature"), icbor.Bstr(a.Parts.Protected), icbor.Bstr(signProt), icbor.Bstr(nil), icbor.Bstr(a.Parts.Payload)}
+			label := uint64(7)
+			if v2 {
+				items[0] = icbor.Tstr("CounterSignatureV2")
+				items = append(items, icbor.Arr(icbor.Bstr(a.Parts.Signature)))
+				label = 11
+			}
+			csig, serr := icose.SignTBS(kpB.Alg, kpB.Priv, icbor.Encode(icbor.Arr(items...)))
+			if serr != nil {
+				t.Fatalf("VERIF-INFRA: %v", serr)
+			}
+			cs := icbor.Arr(icbor.Bstr(signProt), icbor.Map(), icbor.Bstr(csig))
+			if genBool.Draw(t, "cs.list") {
+				cs = icbor.Arr(cs)
+			}
+			mut = icbor.Encode(icose.Envelope(a.Parts.Protected, icbor.Map(icbor.P(icbor.U(label), cs)), a.Parts.Payload, a.Parts.Signature))
+			detail = fmt.Sprintf("label=%d by=%s", label, kpB.Name())
+			ev, derr := psatoken.DecodeEvidenceFromCOSE(mut)
+			if derr != nil {
+				st.Case("", kind, "decode-failed", icose.AlgName(algA))
+				return
+			}
+			if ev.Verify(kpB.Pub) == nil {
+				t.Fatalf("C02 violated (%s, %s): a token signed by %s that carries a countersignature of %s in its unprotected header VERIFIES with the countersigner's key, a key other than the signer's\n  token: %x", kind, detail, kpA.Name(), kpB.Name(), mut)
+			}
+			for i, k := range otherKeys(kpA) {
+				if ev.Verify(k) == nil {
+					t.Fatalf("C02 violated (%s, %s): countersigned token verifies with a key other than the signer's (#%d, %T)", kind, detail, i, k)
+				}
+			}
+			if verr := ev.Verify(kpA.Pub); verr != nil {
+				// the unprotected header is not covered: the signer's key still
+				// verifies (positive control; a library that refuses such
+				// tokens earlier is not judged)
+				t.Fatalf("C02 positive control failed on a countersigned token: %v", verr)
+			}
+			st.Case(kpA.Name()+"|countersigned|"+detail, kind, "wrong-key", icose.AlgName(algA))
+			return
 		case "signature-less-evidence":
 			// the one way to hold a message WITHOUT a signature: an Evidence
 			// whose signing attempt failed in the signer (error, empty or nil
